@@ -368,7 +368,15 @@ impl ChunkDeserializer {
     ) -> Result<ParseStageResult, ChunkDeserializationError> {
         let mut length = self.current_header.message_length as usize;
         let current_payload_length = self.current_payload_data.len();
-        let remaining_bytes = length - current_payload_length;
+        let remaining_bytes = match length.checked_sub(current_payload_length) {
+            Some(x) => x,
+            None => {
+                return Err(ChunkDeserializationError::InvalidMessageLength {
+                    csid: self.current_header.chunk_stream_id,
+                    length: self.current_header.message_length,
+                })
+            }
+        };
         if length > self.max_chunk_size as usize {
             length = min(remaining_bytes, self.max_chunk_size as usize);
         }
